@@ -38,6 +38,16 @@ func resultsToVal(sig *types.Signature, vals []Val) Val {
 // callVals performs a call whose callee value and arguments are already evaluated.
 func (u *Unit) callVals(fr *Frame, st *State, c *ssa.CallCommon, fn Val, args []Val, pos token.Pos, resT types.Type, mode string) Val {
 	sig := c.Signature()
+	if _, isBuiltin := fn.(*BuiltinVal); !isBuiltin {
+		if _, isClosure := fn.(*ClosureVal); !isClosure || mode != "call" {
+			for _, a := range args {
+				u.escape(st, a)
+			}
+		}
+		if mode != "call" {
+			u.escape(st, fn)
+		}
+	}
 	if c.IsInvoke() {
 		key := ifaceMethodKey(c)
 		recv := fn
@@ -65,6 +75,13 @@ func (u *Unit) callVals(fr *Frame, st *State, c *ssa.CallCommon, fn Val, args []
 	case *BoundVal:
 		return u.callStatic(fr, st, f.Fn, append([]Val{f.Recv}, args...), pos)
 	case *Term:
+		if cl, bind := u.resolveFuncVar(fr, c.Value); cl != nil {
+			key := funcKey(cl)
+			if ct := u.prog.specs.Contracts[key]; ct != nil && ct.Flags["modular"] != "" {
+				return resultsToVal(sig, u.applyClosureContract(fr, st, ct, cl, args, bind, pos, key))
+			}
+			return u.inline(fr, st, cl, args, bind, pos)
+		}
 		// dynamic function value: field-func contract?
 		if key := fieldFuncKey(c.Value); key != "" {
 			if ct := u.prog.specs.Contracts["fieldfunc:"+key]; ct != nil {
@@ -156,6 +173,10 @@ func (u *Unit) inline(fr *Frame, st *State, fn *ssa.Function, args []Val, bindin
 
 // bindArgs builds the name environment of a callee contract.
 func (u *Unit) bindArgs(sig *types.Signature, args []Val, hasRecv bool) (map[string]envVar, []Val) {
+	return u.bindArgsNamed(sig, args, hasRecv, nil)
+}
+
+func (u *Unit) bindArgsNamed(sig *types.Signature, args []Val, hasRecv bool, names []string) (map[string]envVar, []Val) {
 	vars := map[string]envVar{}
 	i := 0
 	if hasRecv && len(args) > 0 {
@@ -179,6 +200,9 @@ func (u *Unit) bindArgs(sig *types.Signature, args []Val, hasRecv bool) (map[str
 			vars[p.Name()] = ev
 		}
 		vars[fmt.Sprintf("arg%d", k)] = ev
+		if k < len(names) {
+			vars[names[k]] = ev
+		}
 	}
 	return vars, args
 }
@@ -188,8 +212,8 @@ func (u *Unit) checkPre(fr *Frame, st *State, ct *Contract, sig *types.Signature
 	if hasRecvOpt != nil {
 		hasRecv = *hasRecvOpt
 	}
-	vars, _ := u.bindArgs(sig, args, hasRecv)
-	env := &Env{u: u, st: st, old: st, vars: vars, pkgPath: ct.PkgPath}
+	vars, _ := u.bindArgsNamed(sig, args, hasRecv, ct.ParamNames)
+	env := &Env{u: u, st: st, old: st, vars: vars, pkgPath: ct.PkgPath, fvOverride: u.fvCallOrEmpty()}
 	for i, r := range ct.Requires {
 		label := fmt.Sprintf("pre@%s#%d", shortName(key), i+1)
 		if r.Label != "" {
@@ -207,10 +231,10 @@ func (u *Unit) applyContract(fr *Frame, st *State, ct *Contract, sig *types.Sign
 	}
 	hr := hasRecv
 	u.checkPre(fr, st, ct, sig, args, pos, key, &hr)
-	vars, _ := u.bindArgs(sig, args, hasRecv)
+	vars, _ := u.bindArgsNamed(sig, args, hasRecv, ct.ParamNames)
 	old := st.clone()
 	// frame
-	oldEnv := &Env{u: u, st: old, old: old, vars: vars, pkgPath: ct.PkgPath}
+	oldEnv := &Env{u: u, st: old, old: old, vars: vars, pkgPath: ct.PkgPath, fvOverride: u.fvCallOrEmpty()}
 	if ct.ModifiesAll || !ct.HasModifies {
 		u.checkCallFrame(st, nil, true, pos, key)
 		u.havocAll(st, "call to "+key+" (contract modifies everything)")
@@ -258,7 +282,7 @@ func (u *Unit) applyContract(fr *Frame, st *State, ct *Contract, sig *types.Sign
 			rtypes = append(rtypes, rs.At(i).Type())
 		}
 	}
-	env := &Env{u: u, st: st, old: old, vars: cloneVars(vars), pkgPath: ct.PkgPath, results: results, resultTypes: rtypes}
+	env := &Env{u: u, st: st, old: old, vars: cloneVars(vars), pkgPath: ct.PkgPath, results: results, resultTypes: rtypes, fvOverride: u.fvCallOrEmpty()}
 	for i := 0; i < rs.Len(); i++ {
 		if n := rs.At(i).Name(); n != "" && n != "_" {
 			env.vars[n] = envVar{results[i], rs.At(i).Type()}
@@ -339,6 +363,11 @@ func (u *Unit) lenOf(st *State, v Val, t types.Type) *Term {
 		return u.strLen(x)
 	case SRef:
 		if mt, ok := types.Unalias(t).Underlying().(*types.Map); ok {
+			if !u.mapModelled(mt) {
+				r := u.ctx.FreshConst("maplen", SInt)
+				u.assume(st, Ge(r, IntLit(0)))
+				return r
+			}
 			_, _, ln, _, _ := u.mapNames(mt)
 			l := u.mapGet(st, ln, ArrSort(SRef, SInt))
 			r := u.ctx.Define("maplen", Select(l, x))
@@ -451,4 +480,125 @@ func (u *Unit) copyOp(st *State, args []Val, dstT, srcT types.Type, pos token.Po
 		u.heapSet(st, name, Store(m, sarr(dst), fresh))
 	})
 	return n
+}
+
+// resolveFuncVar: the callee is loaded from a variable of the enclosing
+// function (captured or local) that is assigned exactly once, a closure.
+// Returns the closure and the bindings of its free variables expressed in the
+// current frame (same captured variable = same cell).
+func (u *Unit) resolveFuncVar(fr *Frame, v ssa.Value) (*ssa.Function, []Val) {
+	ld, ok := v.(*ssa.UnOp)
+	if !ok || ld.Op != token.MUL {
+		return nil, nil
+	}
+	if cell, ok := ld.X.(*ssa.Alloc); ok {
+		// a local func variable of this very function, assigned once
+		var mc *ssa.MakeClosure
+		for _, r := range *cell.Referrers() {
+			if s, ok := r.(*ssa.Store); ok && s.Addr == cell {
+				m, isMC := s.Val.(*ssa.MakeClosure)
+				if !isMC || mc != nil {
+					return nil, nil
+				}
+				mc = m
+			}
+		}
+		if mc == nil {
+			return nil, nil
+		}
+		var bind []Val
+		for _, b := range mc.Bindings {
+			v, ok := fr.regs[b]
+			if !ok {
+				if a, isA := b.(*ssa.Alloc); isA && isCellAlloc(a) {
+					v = &CellAddr{a}
+				} else {
+					return nil, nil
+				}
+			}
+			bind = append(bind, v)
+		}
+		return mc.Fn.(*ssa.Function), bind
+	}
+	fv, ok := ld.X.(*ssa.FreeVar)
+	if !ok {
+		return nil, nil
+	}
+	parent := fr.fn.Parent()
+	if parent == nil {
+		return nil, nil
+	}
+	// the Alloc in the parent with that name
+	var cell *ssa.Alloc
+	for _, b := range parent.Blocks {
+		for _, in := range b.Instrs {
+			if a, ok := in.(*ssa.Alloc); ok && a.Comment == fv.Name() && types.Identical(a.Type(), fv.Type()) {
+				if cell != nil {
+					return nil, nil
+				}
+				cell = a
+			}
+		}
+	}
+	if cell == nil {
+		return nil, nil
+	}
+	var mc *ssa.MakeClosure
+	for _, r := range *cell.Referrers() {
+		if s, ok := r.(*ssa.Store); ok && s.Addr == cell {
+			m, isMC := s.Val.(*ssa.MakeClosure)
+			if !isMC || mc != nil {
+				return nil, nil
+			}
+			mc = m
+		}
+	}
+	if mc == nil {
+		return nil, nil
+	}
+	cl := mc.Fn.(*ssa.Function)
+	var bind []Val
+	for _, cfv := range cl.FreeVars {
+		var found Val
+		for i, mine := range fr.fn.FreeVars {
+			if mine.Name() == cfv.Name() && types.Identical(mine.Type(), cfv.Type()) && i < len(fr.freeVars) {
+				found = fr.freeVars[i]
+			}
+		}
+		if found == nil {
+			p := u.ctx.FreshConst("fv_"+cfv.Name(), SPtr)
+			found = p
+			u.note("captured variable " + cfv.Name() + " of " + funcKey(cl) + " is not captured by " + funcKey(fr.fn) + ": unconstrained cell")
+		}
+		bind = append(bind, found)
+	}
+	return cl, bind
+}
+
+// applyClosureContract applies the contract of a closure whose free variables are bound to cells.
+func (u *Unit) applyClosureContract(fr *Frame, st *State, ct *Contract, cl *ssa.Function, args []Val, bind []Val, pos token.Pos, key string) []Val {
+	saved := u.fvCall
+	u.fvCall = closureFV(cl, bind)
+	defer func() { u.fvCall = saved }()
+	return u.applyContract(fr, st, ct, cl.Signature, args, false, pos, key)
+}
+
+func closureFV(cl *ssa.Function, bind []Val) map[string]freeVarInfo {
+	m := map[string]freeVarInfo{}
+	for i, fv := range cl.FreeVars {
+		if i < len(bind) {
+			if p, ok := bind[i].(*Term); ok {
+				m[fv.Name()] = freeVarInfo{p, ptrElem(fv.Type())}
+			}
+		}
+	}
+	return m
+}
+
+// fvCallOrEmpty: inside a callee contract, names never resolve to the caller's captured variables.
+func (u *Unit) fvCallOrEmpty() map[string]freeVarInfo {
+	if u.fvCall != nil {
+		return u.fvCall
+	}
+	return map[string]freeVarInfo{}
 }
